@@ -113,7 +113,7 @@ def summary(out):
 
 def run(ctx):
     # (a) design level: the graph dumps carry every invariant of their scope (= exhaustive check)
-    crows = scenarios(ctx, "GoAwayClient", "GoAwayClientMC.cfg", cstep_of, ctx.pick(1200, None))
+    crows = scenarios(ctx, "GoAwayClient", "GoAwayClientMC.cfg", cstep_of, ctx.pick(1200, 6000))
     srows = scenarios(ctx, "GoAwayServer", "GoAwayServerMC.cfg", sstep_of, None)
     ctx.neg("GoAwayClient", "GoAwayClientNeg1.cfg", expect="I_FailHigh", workers=2)
     ctx.neg("GoAwayServer", "GoAwayServerNeg3.cfg", expect="P_ServeBelow", workers=2)
